@@ -6,7 +6,7 @@ What a function of the listed modules returns may depend on its arguments only. 
                                                             (subscript store / delete, mutating method call, `global`) - discharged when none does.
   modstate:<module>.<function>:key-covers:<read>            a function that does write one is accepted when the write is a memo
                                                                 try: return CACHE[key]  except KeyError: <miss: compute, CACHE[key] = v>
-                                                            (the miss code may follow the try statement) and every value the miss code reads - parameters,
+                                                            (the hit may also be `x = CACHE[key]; continue`; the miss code may follow the try statement) and every value the miss code reads - parameters,
                                                             earlier locals, attributes of them such as self.indent - is a component of `key` (the value
                                                             itself, a prefix of the attribute chain read, tuple(v) / frozenset(v), or a local computed from
                                                             components only).  A read the key does not determine is a violation: the cached result of one call
@@ -67,11 +67,17 @@ def _memo(fn, cache):
     """-> (try node, key expr, miss statements) when the function reads `cache` through the memo shape, else None"""
     for block in _blocks(fn):
         for i, st in enumerate(block):
-            if isinstance(st, ast.Try) and len(st.body) == 1 and isinstance(st.body[0], ast.Return) and isinstance(st.body[0].value, ast.Subscript) \
-                    and isinstance(st.body[0].value.value, ast.Name) and st.body[0].value.value.id == cache:
-                hs = [h for h in st.handlers if isinstance(h.type, ast.Name) and h.type.id == "KeyError"]
-                if hs:
-                    return st, st.body[0].value.slice, list(hs[0].body) + list(block[i + 1:])
+            if not isinstance(st, ast.Try) or not 1 <= len(st.body) <= 2:
+                continue
+            if len(st.body) == 2 and not isinstance(st.body[1], (ast.Continue, ast.Break, ast.Return)):
+                continue
+            # the hit: `return CACHE[key]`, or `x = CACHE[key]` followed by continue / break / return
+            looks = [x for x in ast.walk(st.body[0]) if isinstance(x, ast.Subscript) and isinstance(x.ctx, ast.Load) and isinstance(x.value, ast.Name) and x.value.id == cache]
+            if len(looks) != 1 or not isinstance(st.body[0], (ast.Return, ast.Assign)):
+                continue
+            hs = [h for h in st.handlers if isinstance(h.type, ast.Name) and h.type.id == "KeyError"]
+            if hs:
+                return st, looks[0].slice, list(hs[0].body) + list(block[i + 1:])
     return None
 
 
